@@ -1015,6 +1015,18 @@ func (s *seq) doSave(start uint64, gs []group, withHS, withSnap int) {
 	if len(ents) == 0 {
 		s.c.Count("save:no-entries")
 	}
+	if len(ents) > 0 && start <= preLast && !s.dead {
+		// "appending at an index that already exists discards that entry and everything after it":
+		// what lay behind the new end must be gone, in every read path
+		s.c.Count("save:conflict-probes")
+		s.qTerm(s.last + 1)
+		if preLast > s.last {
+			s.qTerm(preLast)
+			s.qEnts(s.last, preLast+1, 1<<40)
+		}
+		s.qEnts(s.last, s.last+1, 1<<40)
+		s.qLast()
+	}
 }
 
 // fileOf: which file (counted from the start of the log) an index lives in, for statistics
@@ -1092,6 +1104,9 @@ func (s *seq) genSaveAt(profile int, forced uint64) {
 	big := false
 	switch {
 	case forced != 0:
+		if s.r.Bool() {
+			total = 1 + s.r.Intn(3) // short: part of the old tail lies behind the new end
+		}
 	case profile >= 1 && s.r.Chance(35):
 		// reach just before / exactly / just past the next slot-table boundary
 		nextB := ((start-1)/capSlots + 1) * capSlots
@@ -1383,6 +1398,18 @@ func runSeq(c *hx.Ctx, r *hx.Rng, id int, root string, profile int, rw int) {
 		s.crossed = true
 		s.advanceCommit()
 		nops = 6 + s.r.Intn(14)
+	case 3:
+		if s.r.Chance(40) {
+			// the very first entry does not fit an empty file: AddEntries rotates the empty current
+			// file into the list of rotated files and writes the entry into the next one
+			sz := maxSize - dataOff - 4 + 1 + s.r.Intn(3)
+			s.c.Count("save:first-payload-larger-than-a-file")
+			s.doSave(1, []group{{n: 1, term: 1, typ: 0, pl: payload{run: true, n: sz, b: byte(1 + s.r.Intn(250))}}, {n: 1 + s.r.Intn(3), term: 1, typ: 0, pl: payload{data: []byte{7}}}}, 1, 0)
+			s.crossed = true
+			s.advanceCommit()
+			s.queries(4)
+			s.boundaryProbes()
+		}
 	case 5: // crash images inside operations: small logs, or a log prepared so that the armed
 		// operations rotate, or conflict into a rotated file with one or two files behind it
 		nops = 4 + s.r.Intn(7)
@@ -1404,16 +1431,17 @@ func runSeq(c *hx.Ctx, r *hx.Rng, id int, root string, profile int, rw int) {
 			s.crossed = n > int(capSlots)
 			// keep the tail of the first file uncommitted so that conflicts can reach back into it
 			s.commit = uint64(minInt(n, int(capSlots)) - 3 - s.r.Intn(8))
-			if s.r.Chance(35) {
+			three := n > 2*int(capSlots)
+			if !three && s.r.Chance(35) {
 				s.commit = s.last - uint64(s.r.Intn(3))
 			}
 		}
 		s.crashOn = crashWanted
-		if nb := int(s.last / capSlots); nb >= 1 && s.commit < capSlots && s.r.Chance(70) {
+		if nb := int(s.last / capSlots); nb >= 1 && s.commit < capSlots && (nb > 1 || s.r.Chance(70)) {
 			// aimed: a conflicting save at the end of an earlier file, so that one or two later files
 			// (and the current one) are deleted and that file becomes current again
 			b := capSlots
-			if nb > 1 && s.r.Chance(30) {
+			if nb > 1 && s.r.Chance(15) {
 				b = 2 * capSlots
 			}
 			at := b - uint64(s.r.Intn(4)) // the last slots of the earlier file
@@ -1577,7 +1605,7 @@ func Run(c *hx.Ctx) error {
 		}
 		// a quarter of the sequences run on the other file wrapper (entry-file-rw-type = 1)
 		rw := 2
-		if r.Chance(25) {
+		if r.Chance(25) || (profile == 5 && r.Chance(35)) {
 			rw = 1
 		}
 		if v := c.Arg("rw", ""); v != "" {
